@@ -45,6 +45,7 @@ THEOREMS = [
     "Typedpy.C14.ignore_none_exclusion_necessary",
     "Typedpy.C14.second_base_ctor_counterexample",
     "Typedpy.C14.abstract_entries_example",
+    "Typedpy.C14.reachable_no_sealed_ancestor",
 ]
 RULE = ("histories of class statements: DAG hierarchies of 1..4 classes (single / two struct bases, plain mixins "
         "before or after, ImmutableStructure / FinalStructure / AbstractStructure roots), fields from the type-directed "
@@ -130,6 +131,8 @@ def judge(case, impl, model):
             if b["missing_fields"]:
                 fails.append(("fields-not-superset", f"{name} lacks fields {b['missing_fields']} of base {b['base']}"))
             for n in b["missing_required"]:
+                if n in b["base_constants"] and n in b["redeclared"]:
+                    continue   # the subclass replaces the base's Constant by a Field of its own: its requiredness is the subclass's choice
                 if n in b["base_constants"]:
                     key = "required-not-superset:constant"
                 elif n in b["shadowed"]:
